@@ -281,14 +281,22 @@ fn generate_state_impls(machine: &StateMachine) -> Result<Vec<TokenStream2>> {
 ///     }
 /// }
 /// ```
-fn generate_constructor(machine: &StateMachine, _state: &Ident) -> Result<TokenStream2> {
+fn generate_constructor(machine: &StateMachine, state: &Ident) -> Result<TokenStream2> {
     let storage_inits: Vec<_> = machine
         .state_storage
         .iter()
         .map(|spec| {
             let field = &spec.field;
-            quote! {
-                #field: ::core::option::Option::None
+            let ty = &spec.ty;
+            // The initial state's own data starts at its default, as on every later entry
+            if &spec.state_name == state {
+                quote! {
+                    #field: ::core::option::Option::Some(<#ty as ::core::default::Default>::default())
+                }
+            } else {
+                quote! {
+                    #field: ::core::option::Option::None
+                }
             }
         })
         .collect();
